@@ -452,7 +452,7 @@ def pmap(fn, arglist, procs=None, task_timeout=None):
         return []
     procs = procs or min(int(os.environ.get("VERIF_PROCS", "16")), len(arglist))
     if task_timeout is None:
-        task_timeout = float(os.environ.get("VERIF_TASK_TIMEOUT", "900" if os.environ.get("VERIF_TIER_ACTIVE", "quick") == "quick" else "2700"))
+        task_timeout = float(os.environ.get("VERIF_TASK_TIMEOUT", "900" if os.environ.get("VERIF_TIER_ACTIVE", "quick") == "quick" else "1500"))
     ctx = mp.get_context("fork")
     results = [None] * len(arglist)
     pending = list(enumerate(arglist))
